@@ -13,6 +13,10 @@ as the property states it:
     (element-only content: whitespace between elements), the only place where the two may differ.
 
 Nothing is derived from the library: the two outputs are only compared with each other.
+
+Case families: typed cells, small forms, deep/wide structure, the rich text template, and fam_mixed_sites: a ${ref}
+in every cell kind that can become mixed text-and-output content (labels, hints, guidance, messages, and the image /
+big-image / audio / video file names of questions, groups, repeats and choices; osm tag labels), one place at a time.
 """
 from __future__ import annotations
 
@@ -460,6 +464,196 @@ def fam_structure(tier, rnd):
     return out
 
 
+# Every place of an XForm where a cell of the workbook can end up as mixed text-and-<output/> content, as the XLSForm
+# conventions define them (a ${name} reference is allowed in any translatable cell, media file names included):
+#   question   label / hint (body, or itext when translated or when the question has media), guidance hint,
+#              constraint / required message (itext value), image / big-image / audio / video (itext value form=...)
+#   group, repeat   label and the four media columns
+#   choice     label and the four media columns, under every way of consuming the list (itext of the list, inline
+#              items for search())
+#   osm tag    label (body, inside <upload><tag>)
+TEXT_COLS = ("label", "hint", "guidance_hint", "constraint_message", "required_message")
+MEDIA_COLS = ("image", "big-image", "audio", "video")
+Q_TYPES = ("note", "text", "integer", "select_one l", "select_multiple l", "rank l", "acknowledge", "image", "range",
+           "geopoint", "date")
+CHOICE_USAGES = ("select_one l", "select_multiple l", "rank l", "select_one l or_other", "filter", "search", "randomize",
+                 "in-repeat")
+# Contents with references ({0} {1}: two different references).  File-name shapes and sentence shapes; every shape is
+# used in every kind of cell (a URI-looking label is as legitimate as a file name with spaces).
+MIXED_PATTERNS = [
+    "{0}.png", "people/{0}.png", "{0}", "people/{0}", "p/{0}_{1}.png", "{0}{1}", "{0}/{1}/f.png", "x {0} y.png",
+    " {0}.png", "{0}.png ", "p/{0}  {1}.png", "{0}-{0}.mp3", "jr://images/{0}.png", "jr://audio/{0}", "http://h/{0}?a=1",
+    "R&D {0}.png", "a<b {0} c>d", "Dear {0},\nsee {1}", "{0} {1}", "p/{0}.png\n", "file://{0}", "{0}://x",
+]
+MIXED_CONTROLS = ["f.png", "-", "jr://images/f.png", " f.png "]  # no reference: the same places with plain text
+
+
+def _layout_headers(col, layout):
+    """Header(s) of a translatable column under a language layout."""
+    media = col in MEDIA_COLS
+    if layout == "mono":
+        return [col]
+    if layout == "multi":
+        return [f"{col}::en", f"{col}::fr"]
+    if layout == "prefix":  # the long spelling of media headers; other columns: one named language only
+        return [f"media::{col}"] if media else [f"{col}::en"]
+    if layout == "prefix-multi":
+        return [f"media::{col}::en", f"media::{col}::fr"] if media else [f"{col}::en", f"{col}::fr"]
+    if layout == "partial":  # an untranslated column next to a translated one
+        return [col, f"{col}::fr"]
+    raise ValueError(layout)
+
+
+LAYOUTS = ("mono", "multi", "prefix", "prefix-multi", "partial")
+CONTEXTS = ("top", "group", "repeat", "nested")
+
+
+def _mixed_case(name, holder, cols, text, layout, context, refs_kind, other_text=None, st=None):
+    """A form where the cells `cols` of `holder` hold `text` (a pattern: {0} {1} are replaced by references that are
+    in scope in `context`); every other cell is plain."""
+    def named(t):
+        return {h: t for h in _layout_headers("label", layout)}
+    A = {"type": "text", "name": "a", **named("A")}
+    B = {"type": "integer", "name": "b", **named("B")}
+    inner = {"type": "text", "name": "rb", **named("RB")}
+    if context in ("repeat", "nested"):
+        refs = ["rb", "a"]  # a sibling inside the repeat (relative path) and a question outside
+    else:
+        refs = ["a", "b"]
+    if refs_kind == 1:
+        refs = [refs[1], refs[0]]
+    elif refs_kind == 2:
+        refs = [refs[0], "last-saved#a"]
+    value = text.format(*["${%s}" % r for r in refs])
+    cells = {}
+    for col in cols:
+        for h in _layout_headers(col, layout):
+            cells[h] = value
+    plain = {}
+    if other_text is not None:  # the other translatable cells of the holder, so that a plain sibling value exists
+        for h in _layout_headers("label", layout):
+            plain[h] = other_text
+    if "big-image" in cols and "image" not in cols:  # XLSForm: big-image accompanies an image
+        for h in _layout_headers("image", layout):
+            plain[h] = "small.png"
+    survey_mid, choices, extra = [], None, None
+    lab = named("L")
+    ch_plain = [{"list_name": "l", "name": "c1", **lab}, {"list_name": "l", "name": "c2", **lab}]
+    if holder.startswith("q:"):
+        typ = holder[2:]
+        row = {"type": typ, "name": "q", **plain, **cells}
+        if "constraint_message" in cols:
+            row["constraint"] = ". != 'zzz'"
+        if "required_message" in cols:
+            row["required"] = "yes"
+        if " l" in typ:
+            choices = ch_plain
+        survey_mid = [row]
+    elif holder in ("group", "repeat"):
+        survey_mid = [{"type": f"begin {holder}", "name": "s", **plain, **cells},
+                      {"type": "text", "name": "sq", **lab}, {"type": f"end {holder}"}]
+    elif holder.startswith("choice:"):
+        usage = holder[7:]
+        row = {"type": usage if " l" in usage else "select_one l", "name": "q", **lab}
+        if usage == "filter":
+            row["choice_filter"] = "extra != ''"
+        elif usage == "search":
+            row["appearance"] = "search('x')"
+        elif usage == "randomize":
+            row["parameters"] = "randomize=true"
+        survey_mid = [row]
+        if usage == "in-repeat" and context not in ("repeat", "nested"):
+            survey_mid = [{"type": "begin repeat", "name": "cr", **lab}, row, {"type": "end repeat"}]
+        choices = [{"list_name": "l", "name": "c1", **plain, **cells, "extra": "e"},
+                   {"list_name": "l", "name": "c2", **lab, "extra": "f"},
+                   {"list_name": "l", "name": "c3", **plain, **cells}]
+    elif holder == "osm-tag":
+        survey_mid = [{"type": "osm t", "name": "q", **lab}]
+        extra = {"osm": [{"list_name": "t", "name": "k1", **plain, **cells}, {"list_name": "t", "name": "k:2", **lab}]}
+    else:
+        raise ValueError(holder)
+    if context == "top":
+        rows = [A, B, *survey_mid]
+    elif context == "group":
+        rows = [A, B, {"type": "begin group", "name": "g", **lab}, *survey_mid, {"type": "end group"}]
+    elif context == "repeat":
+        rows = [A, B, {"type": "begin repeat", "name": "r", **lab}, inner, *survey_mid, {"type": "end repeat"}]
+    else:
+        rows = [A, B, {"type": "begin repeat", "name": "r0", **lab}, {"type": "begin group", "name": "g", **lab},
+                {"type": "begin repeat", "name": "r", **lab}, inner, *survey_mid, {"type": "end repeat"},
+                {"type": "end group"}, {"type": "end repeat"}]
+    return Case(name, wb=_wb(rows, choices, st, extra), origin="C15-family")
+
+
+def mixed_sites():
+    """(holder, column) for every place listed above."""
+    sites = []
+    for t in Q_TYPES:
+        for c in (*TEXT_COLS, *MEDIA_COLS):
+            sites.append((f"q:{t}", c))
+    for s in ("group", "repeat"):
+        for c in ("label", *MEDIA_COLS):
+            sites.append((s, c))
+    for u in CHOICE_USAGES:
+        for c in ("label", *MEDIA_COLS):
+            sites.append((f"choice:{u}", c))
+    sites.append(("osm-tag", "label"))
+    return sites
+
+
+def fam_mixed_sites(tier):
+    """Mixed text-and-output content in EVERY place where a workbook cell can produce it (not only labels and hints):
+    one place at a time x content shape x language layout x nesting context, then all places of a holder at once."""
+    out = []
+    sites = mixed_sites()
+    pats = MIXED_PATTERNS + MIXED_CONTROLS
+    n = 0
+    for si, (holder, col) in enumerate(sites):
+        for pi, pat in enumerate(pats):
+            n += 1
+            if tier == "quick" and (si + pi) % 7:
+                continue
+            combos = ([(LAYOUTS[n % len(LAYOUTS)], CONTEXTS[(n // len(LAYOUTS)) % len(CONTEXTS)])] if tier == "quick"
+                      else [(LAYOUTS[(n + k) % len(LAYOUTS)], CONTEXTS[(n // len(LAYOUTS) + k) % len(CONTEXTS)])
+                            for k in range(2)])
+            for layout, context in combos:
+                media = col in MEDIA_COLS
+                # a media value or a hint alone (no label) and next to a plain label: both are legitimate rows;
+                # guidance hints and messages need a label (or hint) beside them
+                if col == "label":
+                    other = None
+                elif media or col == "hint":
+                    other = [None, "Plain", "Plain"][n % 3]
+                else:
+                    other = "Plain"
+                st = [None, None, {"default_language": "fr"}, {"clean_text_values": "no"}][(n // 3) % 4]
+                if st and "default_language" in st and layout == "mono":
+                    st = None
+                out.append(_mixed_case(f"c15/site/{holder}/{col}/{pi}/{layout}/{context}", holder, (col,), pat, layout,
+                                       context, n % 3, other, st))
+    # all the places of one holder at once (siblings of a mixed value are mixed values too)
+    holders = []
+    for h, _ in sites:
+        if h not in holders:
+            holders.append(h)
+    m = 0
+    for hi, holder in enumerate(holders):
+        cols = [c for h, c in sites if h == holder]
+        for pi, pat in enumerate(pats):
+            m += 1
+            if tier == "quick" and (hi + pi) % 5:
+                continue
+            layout = LAYOUTS[m % len(LAYOUTS)]
+            context = CONTEXTS[(m // 2) % len(CONTEXTS)]
+            out.append(_mixed_case(f"c15/site-all/{holder}/{pi}/{layout}/{context}", holder, tuple(cols), pat, layout,
+                                   context, m % 3))
+            if tier == "thorough":
+                out.append(_mixed_case(f"c15/site-media/{holder}/{pi}/{layout}/{context}", holder,
+                                       tuple(c for c in cols if c in MEDIA_COLS) or tuple(cols), pat,
+                                       LAYOUTS[(m + 1) % len(LAYOUTS)], context, (m + 1) % 3, "Plain"))
+    return out
+
+
 def cases(tier, seed):
     rnd = random.Random(seed * 4409 + 15)
     out = []
@@ -467,4 +661,5 @@ def cases(tier, seed):
     out += fam_small(tier)
     out += fam_structure(tier, rnd)
     out += fam_text_form(tier, seed)
+    out += fam_mixed_sites(tier)
     return out
